@@ -664,3 +664,90 @@ func writesIntoMemoryBuffer(call *ssa.Call) bool {
 	t := typeStr(mi.X.Type())
 	return t == "*bytes.Buffer" || t == "*strings.Builder"
 }
+
+// checkErrorNotOverwritten: a failure is not replaced by the outcome of a later call. For two fallible calls C1, C2 of
+// f (errors e1, e2) where C2 can run after C1 without the test e1 == nil having been passed, e2 never flows
+// into a merged error variable that also holds e1, from a block reached from C2 without that test. That would report
+// C2's success for C1's failure. (Calls that are handed e1 — wrappers like fmt.Errorf("…: %w", e1) — are not "later outcomes".)
+func checkErrorNotOverwritten(c *Ctx, rule string, f *ssa.Function, errIdx int) {
+	type fc struct {
+		call *ssa.Call
+		ev   ssa.Value
+	}
+	var calls []fc
+	for _, in := range instrs(f) {
+		call, ok := in.(*ssa.Call)
+		if !ok || in.Parent() != f || errorResultIndex(call.Call.Signature()) < 0 {
+			continue
+		}
+		if infallible[calleeName(&call.Call)] || writesIntoMemoryBuffer(call) {
+			continue
+		}
+		if ev := errValueOf(call); ev != nil {
+			calls = append(calls, fc{call, ev})
+		}
+	}
+	for _, c1 := range calls {
+		isE1 := func(v ssa.Value) bool {
+			if v == c1.ev {
+				return true
+			}
+			has := false
+			for _, o := range originsOf(v) {
+				if oIsValue(c1.ev)(o) {
+					has = true
+				} else if !isNilConst(o.V) {
+					return false
+				}
+			}
+			return has
+		}
+		cut := factNil(isE1, true)
+		for _, c2 := range calls {
+			if c2.call == c1.call || !pathExists(f, c1.call, c2.call, cut, nil) {
+				continue
+			}
+			wraps := false
+			for _, a := range c2.call.Call.Args {
+				if someOrigin(a, oIsValue(c1.ev)) {
+					wraps = true
+				}
+			}
+			if wraps {
+				continue
+			}
+			bad := ""
+			// (a) merged into the variable that holds e1
+			for _, in := range instrs(f) {
+				phi, ok := in.(*ssa.Phi)
+				if !ok || in.Parent() != f || !isErrorType(phi.Type()) {
+					continue
+				}
+				holdsE1 := false
+				for _, e := range phi.Edges {
+					if e == c1.ev {
+						holdsE1 = true
+					}
+				}
+				if !holdsE1 {
+					continue
+				}
+				for i, e := range phi.Edges {
+					if e != c2.ev {
+						continue
+					}
+					pred := phi.Block().Preds[i]
+					if _, isJump := lastInstr(pred).(*ssa.Jump); !isJump {
+						continue
+					}
+					if pred == c2.call.Block() || pathExists(f, c2.call, lastInstr(pred), cut, nil) {
+						bad = "its error replaces the one of " + calleeName(&c1.call.Call) + " in the same variable (" + c.P.InstrPos(phi) + ")"
+					}
+				}
+			}
+			if bad != "" {
+				c.obD(rule, c2.call, "failure-not-replaced-by-later-outcome", false, "once a fallible call has failed, no later call's outcome takes the place of its error: the later error is kept apart or assigned only while the earlier one is nil", calleeName(&c2.call.Call)+" runs although "+calleeName(&c1.call.Call)+" may have failed, and "+bad)
+			}
+		}
+	}
+}
